@@ -315,6 +315,44 @@ func (s *subject) add(x uint) bool {
 	return s.lenOK("add") && s.contains(x)
 }
 
+// addHuge: Add of a value whose storage cannot possibly be allocated. Whether
+// the call panics is not the property's business (the caller recovers); what
+// matters is the state afterwards: if Add did not complete, the set is what it
+// was, with Len still equal to the cardinality.
+func (s *subject) addHuge(x uint) bool {
+	if s.c.Failed() {
+		return false
+	}
+	panicked := false
+	func() {
+		defer func() {
+			if recover() != nil {
+				panicked = true
+			}
+		}()
+		switch s.k {
+		case kBits:
+			s.sb.Add(x)
+		case kBitmap:
+			s.bm.Add(x)
+		default:
+			s.db.Add(x)
+		}
+	}()
+	s.c.Logf("%s.Add(%d) (unallocatable) -> panicked=%v", s.name, x, panicked)
+	if !panicked {
+		s.m[x] = struct{}{}
+		s.cacheInsert(x)
+	}
+	s.c.Add("add_unallocatable_value_recovered", 1)
+	s.fresh = true
+	q := s.q
+	s.q = nil // verify right now, whatever the quiet window says
+	ok := s.lenOK("add-unallocatable") && s.enumerate("add-unallocatable")
+	s.q = q
+	return ok
+}
+
 func (s *subject) remove(x uint) bool {
 	want := s.has(x)
 	words := s.words()
